@@ -6,45 +6,46 @@
    Kernel oracle: for intervals below 100_000 the extracted, verified
    [primes_between] is used; above, a deterministic Miller-Rabin (unverified,
    part of the trusted base of the correspondence only). *)
+module Zr = Z   (* zarith; the extracted code defines its own module Z *)
 open Model
 
-let z = Z.of_string
-let pr = Z.to_string
+let z = Zr.of_string
+let pr = Zr.to_string
 
 (* ---------- Miller-Rabin for n < 2^64 (bases 2..37 are sufficient) ---------- *)
-let small = List.map Z.of_int [2;3;5;7;11;13;17;19;23;29;31;37]
+let small = List.map Zr.of_int [2;3;5;7;11;13;17;19;23;29;31;37]
 let mr n =
-  if Z.lt n (Z.of_int 2) then false
-  else if List.exists (fun p -> Z.equal n p) small then true
-  else if List.exists (fun p -> Z.equal (Z.rem n p) Z.zero) small then false
+  if Zr.lt n (Zr.of_int 2) then false
+  else if List.exists (fun p -> Zr.equal n p) small then true
+  else if List.exists (fun p -> Zr.equal (Zr.rem n p) Zr.zero) small then false
   else begin
-    let n1 = Z.pred n in
+    let n1 = Zr.pred n in
     let r = ref 0 and d = ref n1 in
-    while Z.equal (Z.rem !d (Z.of_int 2)) Z.zero do d := Z.div !d (Z.of_int 2); incr r done;
+    while Zr.equal (Zr.rem !d (Zr.of_int 2)) Zr.zero do d := Zr.div !d (Zr.of_int 2); incr r done;
     List.for_all (fun a ->
-      let x = ref (Z.powm a !d n) in
-      if Z.equal !x Z.one || Z.equal !x n1 then true
+      let x = ref (Zr.powm a !d n) in
+      if Zr.equal !x Zr.one || Zr.equal !x n1 then true
       else begin
         let ok = ref false in
         (try for _ = 1 to !r - 1 do
-           x := Z.rem (Z.mul !x !x) n;
-           if Z.equal !x n1 then (ok := true; raise Exit)
+           x := Zr.rem (Zr.mul !x !x) n;
+           if Zr.equal !x n1 then (ok := true; raise Exit)
          done with Exit -> ());
         !ok
       end) small
   end
 
-let limit_verified = Z.of_int 100_000
+let limit_verified = Zr.of_int 100_000
 let kernel_calls = ref 0 and kernel_verified = ref 0
 let erat a b =
   incr kernel_calls;
-  if Z.leq b limit_verified then (incr kernel_verified; primes_between a b)
+  if Zr.leq b limit_verified then (incr kernel_verified; primes_between a b)
   else begin
     let acc = ref [] in
     let x = ref b in
-    while Z.geq !x a do
+    while Zr.geq !x a do
       if mr !x then acc := !x :: !acc;
-      x := Z.pred !x
+      x := Zr.pred !x
     done;
     !acc
   end
@@ -63,11 +64,11 @@ let run_iter args lines =
   let a, b, c, d, g, k = match args with
     | [a;b;c;d;g;k] -> z a, z b, z c, z d, z g, int_of_string k
     | _ -> failwith "ITER args" in
-  let nextDist s _ = Z.add a (Z.rem s b) in
-  let prevDist s _ = Z.add c (Z.rem s d) in
+  let nextDist s _ = Zr.add a (Zr.rem s b) in
+  let prevDist s _ = Zr.add c (Zr.rem s d) in
   let maxGap _ = g in
   let cut = chunks (nat_of_int k) in
-  let it = ref (fresh_iter Z.zero mAX64) in
+  let it = ref (fresh_iter Zr.zero mAX64) in
   let first = ref true in
   List.iter (fun line ->
     let toks = String.split_on_char ' ' (String.trim line) in
@@ -103,14 +104,31 @@ let run_leaf toks =
   | ["inBetween"; a; x; b] -> pr (inBetween (z a) (z x) (z b))
   | ["align"; stop; n] -> pr (align (z stop) (z n))
   | ["tdist"; md; th; a; b] ->
-    let md' = if Z.equal (z md) Z.zero then z "10000000" else z md in
+    let md' = if Zr.equal (z md) Zr.zero then z "10000000" else z md in
     pr (getThreadDistance md' (z th) (z a) (z b))
   | ["ideal"; md; nt; a; b] ->
-    let thr = if Z.equal (z md) Z.zero then threshold (z "10000000") (z b) else z md in
+    let thr = if Zr.equal (z md) Zr.zero then threshold (z "10000000") (z b) else z md in
     pr (idealNumThreads thr (z nt) (z a) (z b))
   | ["is_prime"; x] -> if is_prime (z x) then "1" else "0"
   | ["mr"; x] -> if mr (z x) then "1" else "0"
   | _ -> "?"
+
+(* CALC <type> <expression>: the checked algebra (= the code) and the exact algebra *)
+let run_calc line =
+  let n = String.length line in
+  let i = try String.index_from line 5 ' ' with Not_found -> n in
+  let ty = String.sub line 5 (i - 5) in
+  let ex = if i >= n then "" else String.sub line (i + 1) (n - i - 1) in
+  let t = match ty with "u64" -> ty_u64 | "i64" -> ty_i64 | _ -> ty_int in
+  let chars = List.init (String.length ex) (fun k -> Zr.of_int (Char.code ex.[k])) in
+  let show = function POk (v, _) -> "ok " ^ pr v | PErr _ -> "rej" in
+  (* the exact algebra is only run on accepted inputs (unbounded powers of rejected inputs can be astronomically large) *)
+  let c = eval (checked t) chars in
+  (* the stdlib's Z.pow is linear in the exponent (1^(2^63) would not return): the exact algebra is evaluated only
+     for inputs without a power/exponent operator; C16_checked_exact covers all inputs *)
+  let has_pow = String.contains ex '^' || String.contains ex 'e' || String.contains ex 'E' ||
+                (try ignore (Str.search_forward (Str.regexp_string "**") ex 0); true with Not_found -> false) in
+  show c ^ " | exact " ^ (match c with POk _ when not has_pow -> show (eval (exact t) chars) | _ -> "-")
 
 let read_block () =
   let rec go acc = match input_line stdin with
@@ -125,11 +143,12 @@ let () =
     if line <> "" then begin
       match String.split_on_char ' ' line with
       | "ITER" :: args -> let ls = read_block () in run_iter args ls; print_endline "END"
+      | "CALC" :: _ -> print_endline (run_calc line)
       | "LEAF" :: toks -> print_endline (run_leaf toks)
       | ["PLAN"; a; b; nt; md] ->
         (* hook distance md (0 = production constants): minDist = md, threshold = md *)
-        let md' = if Z.equal (z md) Z.zero then z "10000000" else z md in
-        let thr = if Z.equal (z md) Z.zero then threshold md' (z b) else z md in
+        let md' = if Zr.equal (z md) Zr.zero then z "10000000" else z md in
+        let thr = if Zr.equal (z md) Zr.zero then threshold md' (z b) else z md in
         (match plan md' thr (z nt) (z a) (z b) with
          | None -> print_endline "single"
          | Some ps -> print_endline ("pieces" ^ String.concat "" (List.map (fun (s, e) -> " " ^ pr s ^ " " ^ pr e) ps)))
